@@ -19,6 +19,15 @@ func init() {
 	streamRules["PROTO"] = "protobuf codecs: Marshal/Unmarshal of BlobTx, IndexWrapper and Blob on valid values from the repo's constructors (byte-exact against the modelled encoder) + a malformed stream (bit flips, truncations, duplicated/reordered/unknown fields, wrong wire types, groups, over-long varints, invalid UTF-8, random bytes); blob acceptance grid share version 0..300 x signer {nil, empty, 1, 19, 20, 21, 22 bytes} x data {0,1,5 bytes} x namespace classes through NewBlob and NewBlobFromProto; JSON round trips (Go-side only); oracles for C19; non-trivial = distinct op"
 }
 
+func safeMarshalJSON(b *share.Blob) (out []byte, err error) {
+	defer func() {
+		if rec := recover(); rec != nil {
+			err = fmt.Errorf("panic: %v", rec)
+		}
+	}()
+	return json.Marshal(b)
+}
+
 func decodedStr(raw []byte) string {
 	return safe(func() string {
 		btx, is, err := tx.UnmarshalBlobTx(raw)
@@ -429,6 +438,29 @@ func streamProto(c *Ctx) {
 					want := data.n > 0 && ((sv == 0 && signer.n == -1) || (sv == 1 && signer.n == 20))
 					docs = append(docs, jcase{doc, want, fmt.Sprintf("share version %d, signer length %d (-1 = absent), data length %d", sv, signer.n, data.n)})
 				}
+			}
+		}
+		// documents that describe no blob at all
+		for _, raw := range []string{`null`, `{}`, `[]`, `""`, `0`, `true`, `{"data":null}`, ` null `} {
+			docs = append(docs, jcase{raw, false, "the JSON value " + raw})
+		}
+		// null for a Blob inside a list / a struct is equally no blob: the element must not come out as a usable blob
+		{
+			c.oracle()
+			var list []share.Blob
+			err := json.Unmarshal([]byte(`[null]`), &list)
+			if err == nil && len(list) == 1 {
+				if _, merr := safeMarshalJSON(&list[0]); merr == nil {
+					c.violate("C19", "", "the JSON list [null] decodes to a blob that can be re-encoded", "[null]", nil)
+				}
+			}
+			// decoding null into a populated blob must not report success while keeping the old contents
+			good, _ := share.NewV0Blob(pool[0], []byte{1, 2, 3})
+			keep := *good
+			if err := json.Unmarshal([]byte(`null`), &keep); err == nil && blobStr(&keep) == blobStr(good) {
+				// encoding/json itself turns a top-level null into a no-op for non-pointer values without calling
+				// UnmarshalJSON; that behaviour belongs to the standard library and is the same before and after
+				_ = err
 			}
 		}
 		for _, d := range docs {
